@@ -62,7 +62,7 @@ def run(ctx, drv):
                            "(i) same seed twice in process, (ii) same seed in separate interpreters with PYTHONHASHSEED in {0,1,2,random}, "
                            "(iii) save at a step boundary, resume in another process whose RNG was used in between, compare with the "
                            "uninterrupted continuation, for several boundaries, (iv) run calls split at step boundaries vs one call "
-                           "(eps-NSGA-II excluded). one case = one pair of runs; non-trivial = the run has >= 3 steps; distinct by configuration")
+                           "(eps-NSGA-II excluded). one case = one pair of runs; non-trivial = the run has >= 3 steps; distinct by configuration + canonical state digests (every attribute + RNG state) right after save and right after load, binary and JSON state formats, a Gaussian left pending before half of the checkpoints, late checkpoints for grid-archive algorithms, two long eps-NSGA-II runs in one interpreter")
     names = list(tracer.ALGOS)
     kinds = ["real", "int", "binary", "perm", "subset"]
     jobs = []          # (description, thunk-a, thunk-b, kind-of-check)
@@ -95,6 +95,14 @@ def run(ctx, drv):
             first["explicit"] = second["explicit"] = False
             first["nvars"], second["nvars"] = 2, 5
             hist.append((first, second))
+    # algorithms that carry long-lived helper objects (time-continuation extension of eps-NSGA-II: restarts are decided on
+    # generation counters): two long runs in one interpreter
+    for _ in range(1 if ctx.quick() else 3):
+        first = gen_cfg(rng, "EpsNSGAII", "real")
+        second = gen_cfg(rng, "EpsNSGAII", "real")
+        for c_ in (first, second):
+            c_["explicit"], c_["size"], c_["nobjs"], c_["dirs"], c_["ncon"], c_["budget"] = False, 12, 2, [False, False], 0, 12 * 720
+        hist.append((first, second))
     results = []
     with ThreadPoolExecutor(12) as ex:
         futs = []
@@ -111,16 +119,18 @@ def run(ctx, drv):
             # (iii) save / resume at boundaries
             for k in ([1, 2] if ctx.quick() else [1, 2, 3, 5]):
                 f = os.path.join(tmp, f"state_{ci}_{k}.bin")
-                sv = dict(c, mode="save", budgets=[s * k, s * 3], file=f, gauss_pending=(k + ci) % 2 == 0)
-                rs = dict(c, mode="resume", budgets=[s * k, s * 3], file=f, scramble=7 + k)
+                js = (k + ci) % 3 == 0           # the human-readable JSON state format as well as the binary one
+                sv = dict(c, mode="save", budgets=[s * k, s * 3], file=f, gauss_pending=(k + ci) % 2 == 0, json=js)
+                rs = dict(c, mode="resume", budgets=[s * k, s * 3], file=f, scramble=7 + k, json=js)
                 futs.append(("save-resume", c, k, ex.submit(lambda sv=sv, rs=rs: (sub(sv, 0), sub(rs, 0)))))
             # (iii-b) algorithms whose state contains lazily maintained structures (adaptive grid bounds / densities, which only
             # go stale once the archive has been full for a while): late boundaries as well
             if c["name"] in ("PESA2", "PAES"):
                 for k in ([5, 9, 14, 20, 27] if ctx.quick() else [5, 9, 14, 20, 27, 35, 50, 70]):
                     f = os.path.join(tmp, f"state_{ci}_late{k}.bin")
-                    sv = dict(c, mode="save", budgets=[s * k, s * 2], file=f)
-                    rs = dict(c, mode="resume", budgets=[s * k, s * 2], file=f, scramble=3 + k)
+                    js = k % 2 == 1
+                    sv = dict(c, mode="save", budgets=[s * k, s * 2], file=f, json=js)
+                    rs = dict(c, mode="resume", budgets=[s * k, s * 2], file=f, scramble=3 + k, json=js)
                     futs.append(("save-resume", c, k, ex.submit(lambda sv=sv, rs=rs: (sub(sv, 0), sub(rs, 0)))))
             # (iv) composition
             if c["name"] != "EpsNSGAII":
@@ -137,7 +147,7 @@ def run(ctx, drv):
 
             def result(self):
                 return self.fn()
-        hist_futs = [(f1, f2, ex.submit(lambda b=dict(f2, mode="run", budgets=[f2["size"] * 4]): sub(b, 0))) for f1, f2 in hist]
+        hist_futs = [(f1, f2, ex.submit(lambda b=dict(f2, mode="run", budgets=[f2.get("budget", f2["size"] * 4)]): sub(b, 0))) for f1, f2 in hist]
         fresh = {}
         subs = [(k_, c_, e_, fu_) for (k_, c_, e_, fu_) in futs]
         for _, _, _, fu_ in subs:
@@ -194,8 +204,8 @@ def run(ctx, drv):
             ctx.count(kind)
         for f1, f2, fu in hist_futs:
             fr = fu.result()
-            inproc(dict(f1, mode="run", budgets=[f1["size"] * 3]))
-            here = inproc(dict(f2, mode="run", budgets=[f2["size"] * 4]))
+            inproc(dict(f1, mode="run", budgets=[f1.get("budget", f1["size"] * 3)]))
+            here = inproc(dict(f2, mode="run", budgets=[f2.get("budget", f2["size"] * 4)]))
             d = first_diff(here, fr)
             if d and not _benign(d):
                 ctx.fail("seeded-run-depends-on-process-history", {"first_problem": {k: v for k, v in f1.items()}, "then": {k: v for k, v in f2.items()}}, d,
